@@ -167,7 +167,7 @@ def run(ctx):
     exe = lib.build_harness("h_seg")
     lines, meta = histories(r, 600 if q else 20000)
     fonts = [str(lib.REPO / "tests" / "fonts" / f[0]) for f in FONTS]
-    impl = lib.run_lines([exe] + fonts, lines, per_chunk=50, timeout=120)
+    impl = lib.run_lines([exe] + fonts, lines, per_chunk=50, timeout=120, env=lib.LEAK_ENV)
     res.harness.append("h_seg histories (implementation only)")
     res.rules.append("histories: 6 shipped fonts x dir 0..7 x 0..3 cuts x 1..3 gr_seg_justify calls (width in {-50,-1,0,100,300.5,1000,1e9}, flags 0..3, first/last in {NULL,0..3}, with/without gr_font), per-line walk after each, destroy + leak check")
     for l, i, m in zip(lines, impl, meta):
